@@ -76,12 +76,12 @@ pub fn run(case: &serde_json::Value, out: &mut String) {
         let head = format!("TOP {} {}", n, op.iter().map(|x| x.to_string().replace('"', "")).collect::<Vec<_>>().join(" "));
         let arg_v = |i: usize| parse_vid(op[i].as_str().unwrap());
         let arg_n = |i: usize| op[i].as_u64().unwrap() as usize;
-        let r: Result<Option<(Transition, Option<(VehicleIdx, Tour)>)>, ()> = guarded(|| match kind {
-            "new" => Some((Transition::new_fast(&vehicles, &tours, &nw), None)),
-            "move" => Some((t.move_vehicle(arg_v(1), arg_n(2), &tours, &nw), None)),
-            "remove" => Some((t.remove_vehicle(arg_v(1), &empty, &tours, &nw), None)),
-            "addown" => Some((t.add_vehicle_to_own_cycle(arg_v(1), tours.get(&arg_v(1)).unwrap(), &nw), None)),
-            "addend" => Some((t.add_vehicle_at_the_end(arg_v(1), arg_n(2), &empty, &tours, &nw), None)),
+        let r: Result<Option<(Transition, Vec<(VehicleIdx, Tour)>)>, ()> = guarded(|| match kind {
+            "new" => Some((Transition::new_fast(&vehicles, &tours, &nw), vec![])),
+            "move" => Some((t.move_vehicle(arg_v(1), arg_n(2), &tours, &nw), vec![])),
+            "remove" => Some((t.remove_vehicle(arg_v(1), &empty, &tours, &nw), vec![])),
+            "addown" => Some((t.add_vehicle_to_own_cycle(arg_v(1), tours.get(&arg_v(1)).unwrap(), &nw), vec![])),
+            "addend" => Some((t.add_vehicle_at_the_end(arg_v(1), arg_n(2), &empty, &tours, &nw), vec![])),
             "update" => {
                 let v = arg_v(1);
                 let d = parse_nid(op[3].as_str().unwrap());
@@ -93,12 +93,33 @@ pub fn run(case: &serde_json::Value, out: &mut String) {
                 };
                 match nt {
                     Err(_) => None,
-                    Ok(nt) => Some((t.update_vehicle(v, &nt, &empty, &tours, &nw), Some((v, nt)))),
+                    Ok(nt) => Some((t.update_vehicle(v, &nt, &empty, &tours, &nw), vec![(v, nt)])),
+                }
+            }
+            // two vehicles updated in ONE schedule operation: the second update sees the first one's new tour through
+            // `updated_tours` while `old_tours` still holds both old tours (update_transitions_and_violation_fast)
+            "update2" => {
+                let (v1, v2) = (arg_v(1), arg_v(4));
+                let mk = |v: VehicleIdx, k: &str, d: model::base_types::NodeIdx| {
+                    let old = tours.get(&v).unwrap();
+                    if k == "rsd" { old.replace_start_depot(d) } else { old.replace_end_depot(d) }
+                };
+                let n1 = mk(v1, op[2].as_str().unwrap(), parse_nid(op[3].as_str().unwrap()));
+                let n2 = mk(v2, op[5].as_str().unwrap(), parse_nid(op[6].as_str().unwrap()));
+                match (n1, n2) {
+                    (Ok(n1), Ok(n2)) if v1 != v2 => {
+                        let t1 = t.update_vehicle(v1, &n1, &empty, &tours, &nw);
+                        let mut upd: im::HashMap<VehicleIdx, &Tour> = im::HashMap::new();
+                        upd.insert(v1, &n1);
+                        let t2 = t1.update_vehicle(v2, &n2, &upd, &tours, &nw);
+                        Some((t2, vec![(v1, n1.clone()), (v2, n2.clone())]))
+                    }
+                    _ => None,
                 }
             }
             "threeopt" => {
                 let c = t.get_cycle(arg_n(1)).three_opt(arg_n(2), arg_n(3), arg_n(4), &tours, &nw);
-                Some((t.replace_cycle(arg_n(1), c), None))
+                Some((t.replace_cycle(arg_n(1), c), vec![]))
             }
             "succ" => {
                 let sv = t.get_successor_of(arg_v(1));
@@ -113,7 +134,7 @@ pub fn run(case: &serde_json::Value, out: &mut String) {
             Ok(Some((t2, upd))) => {
                 writeln!(out, "{} -> OK", head).unwrap();
                 t = t2;
-                if let Some((v, nt)) = upd {
+                for (v, nt) in upd {
                     writeln!(out, "{}", vi_line(&nw, v, &nt)).unwrap();
                     tours.insert(v, nt);
                 }
